@@ -11,22 +11,38 @@ def errStr : Err → String
   | .err m => "(err \"" ++ escapeStr m ++ "\")"
   | .panic m => "(panic \"" ++ escapeStr m ++ "\")"
 
-/-- per-change trace of the CLI-style loop -/
-def runChanges : List Change → FileM → List String → FileM × List String × Option Err
-  | [], f, tr => (f, tr, none)
-  | c :: cs, f, tr =>
+/-- indices (among the non-import top-level declarations) of the declarations that contain a site -/
+def touchedDecls (f : FileM) (sites : List Site) : List Nat :=
+  match f.tree with
+  | .ptr _ fid (_ :: _ :: _ :: .slice _ decls :: _) =>
+      let nonImp := decls.filter (fun d => !isImportDecl d)
+      let idxOf := fun (i : Nat) => ((decls.take i).filter (fun d => !isImportDecl d)).length
+      (List.range nonImp.length).filter (fun j =>
+        sites.any (fun s =>
+          (s.parent == fid && s.field == 3 && (match s.index with | some i => idxOf i == j && !(decls[i]?.map isImportDecl).getD true | none => false)) ||
+          (match nonImp[j]? with | some d => hasId s.parent d | none => false)))
+  | _ => []
+
+/-- per-change trace of the CLI-style loop, and the declarations containing sites -/
+def runChanges : List Change → FileM → List String → List Nat → FileM × List String × Option Err × List Nat
+  | [], f, tr, td => (f, tr, none, td)
+  | c :: cs, f, tr, td =>
+      let td' := match fileMatch c f with
+        | some (_, sites) => td ++ touchedDecls f sites
+        | none => td
       match applyChange c f with
-      | .noMatch => runChanges cs f (tr ++ ["n"])
-      | .ok f' k => runChanges cs f' (tr ++ [s!"k{k}"])
-      | .fail e => (f, tr ++ ["e"], some e)
+      | .noMatch => runChanges cs f (tr ++ ["n"]) td
+      | .ok f' k => runChanges cs f' (tr ++ [s!"k{k}"]) td'
+      | .fail e => (f, tr ++ ["e"], some e, td')
 
 def handleEngine (id : String) (xs : List Sx) : String :=
   let changes := (Sx.field xs "changes").map decodeChange
   let file := decodeFile (Sx.field xs "file")
-  let (f, tr, e) := runChanges changes file []
+  let (f, tr, e, td) := runChanges changes file [] []
+  let tds := " ".intercalate (td.eraseDups.map toString)
   match e with
-  | some e => s!"(res {id} (trace {" ".intercalate tr}) {errStr e})"
-  | none => s!"(res {id} (trace {" ".intercalate tr}) (ok) {canonFile f})"
+  | some e => s!"(res {id} (trace {" ".intercalate tr}) (touched {tds}) {errStr e})"
+  | none => s!"(res {id} (trace {" ".intercalate tr}) (touched {tds}) (ok) {canonFile f})"
 
 def q (s : String) : String := "\"" ++ escapeStr s ++ "\""
 
